@@ -717,6 +717,22 @@ def build_raw(spec):
                     if numpy.array_equal(cast.astype(numpy.float64), arr, equal_nan=True):
                         target[key] = (dims, cast, var_attrs)
 
+    if spec.get("decoy_latlon") and spec["conv"] in ("cf1d", "cf2d"):
+        # a second latitude / longitude pair on OTHER dimensions (the corner grid of a model,
+        # say), listed before everything else.  Only meaningful when the convention is bound
+        # with explicit coordinate names: those names decide, not the order of the variables.
+        g = spec["geom"]
+        if spec["conv"] == "cf1d":
+            ny, nx = len(g["lat"]) + 1, len(g["lon"]) + 1
+            decoys = {"lat_corner": (["yc"], numpy.arange(ny, dtype=numpy.float64) - 70.0, {"units": "degrees_north"}),
+                      "lon_corner": (["xc"], numpy.arange(nx, dtype=numpy.float64) + 20.0, {"units": "degrees_east"})}
+        else:
+            ny, nx = len(g["nodes"]), len(g["nodes"][0])
+            jj, ii = numpy.meshgrid(numpy.arange(ny, dtype=numpy.float64), numpy.arange(nx, dtype=numpy.float64), indexing="ij")
+            decoys = {"lat_corner": (["yc", "xc"], jj - 70.0, {"units": "degrees_north"}),
+                      "lon_corner": (["yc", "xc"], ii + 20.0, {"units": "degrees_east"})}
+        decoys.update(data_vars)
+        data_vars = decoys
     if spec.get("coord_layout") == "F":
         # geometry arrays held column-major in memory (what transposing, meshgrid(indexing="ij").T
         # or asfortranarray leave behind): same values, same dims, other strides
